@@ -273,7 +273,7 @@ pub fn range_points() -> Vec<u32> {
         if u <= 0xFFFF {
             for d in [-1i64, 0, 1] {
                 let x = i64::from(u) + d;
-                if (1..=0xFFFF).contains(&x) {
+                if (0..=0xFFFF).contains(&x) {
                     v.push(x as u32);
                 }
             }
@@ -821,4 +821,23 @@ pub fn spec_from_files(lex: &str, matrix: &str, chardef: &str, unk: &str) -> Opt
         }),
         csv_style: 0,
     })
+}
+
+impl CharDef {
+    /// True if some range line covers U+0000. Characters >= U+10000 then take U+0000's class
+    /// (open known finding of C03), so they are kept out of sentences for such dictionaries.
+    pub fn covers_nul(&self) -> bool {
+        self.ranges.iter().any(|r| r.start == 0)
+    }
+}
+
+/// Removes astral characters when the dictionary's char.def covers U+0000 (the exact trigger of
+/// the open known finding); returns the number of removed characters.
+pub fn exclude_known_astral(spec: &DictSpec, sentence: &mut String) -> usize {
+    if !spec.chardef.covers_nul() {
+        return 0;
+    }
+    let before = sentence.chars().count();
+    *sentence = sentence.chars().filter(|&c| (c as u32) <= 0xFFFF).collect();
+    before - sentence.chars().count()
 }
